@@ -1,5 +1,5 @@
 import PedVerif.Spec.CallableRegions
-/-! Lemmas for `Props/Callable.lean`: `_is_subtype` model vs `Spec.subTy`. -/
+/-! Lemmas for `Props/Callable.lean` (tree with the repairs F1-F5): the `_is_subtype` model decides exactly `Spec.subTy`. -/
 set_option linter.unusedSimpArgs false
 namespace PedVerif.Callable
 open PedVerif.Gen.Callable PedVerif.Callable.Spec
@@ -27,238 +27,164 @@ theorem supHead_top {env : Env} (wf : env.WF) {t : TA} : supHead env t = .object
   | gen1 g t => simp [clsOf, isTop, wf.origin1NotObject g]
   | gen3 g t => simp [clsOf, isTop, wf.origin3NotObject g]
 
-/-! ### soundness of the `_is_subtype` model -/
+/-! ### a sub type against a class -/
 
-theorem contains_any {env : Env} (wf : env.WF) {c : ClsId} {ds : List ClsId} (h : ds.contains c = true) :
-    ds.any (fun d => env.sub c d) = true := by
-  simp only [List.contains_iff_mem] at h
-  exact List.any_eq_true.mpr ⟨c, h, wf.refl c⟩
+theorem clsVsCls_eq {env : Env} (wf : env.WF) (c d : ClsId) : clsVsCls env c d = env.sub c d := by
+  unfold clsVsCls
+  by_cases hd : d = env.object
+  · simp [hd, objectShortcut, objectShortcutResult, wf.top c]
+  · simp [hd, objectShortcut]
 
-theorem isSubtypeCls_sound {env : Env} (wf : env.WF) (c : ClsId) (t : TA)
-    (h : isSubtypeCls env c t = .ok true) : subTy env (.cls c) t = true := by
-  unfold isSubtypeCls at h
-  rw [supHead_eq] at h
+theorem anyVsCls_eq {env : Env} (wf : env.WF) (d : ClsId) : anyVsCls env d = env.sub env.object d := by
+  unfold anyVsCls
+  by_cases hd : d = env.object
+  · simp [hd, objectShortcut, objectShortcutResult, wf.top]
+  · simp [hd, objectShortcut]
+
+theorem emptyVsCls_eq (env : Env) (d : ClsId) : emptyVsCls env d = (d == env.object) := by
+  unfold emptyVsCls
+  by_cases hd : d = env.object
+  · simp [hd, objectShortcut, objectShortcutResult]
+  · simp [hd, objectShortcut]
+
+theorem rawSuper_eq (n : Nat) : rawSuper n = true := by simp [rawSuper, rawSuperShortcut, rawSuperResult]
+
+theorem genVsCls_eq {env : Env} (wf : env.WF) (o : ClsId) (n : Nat) (d : ClsId) : genVsCls env o n d = env.sub o d := by
+  unfold genVsCls
+  by_cases hd : d = env.object
+  · simp [hd, objectShortcut, objectShortcutResult, wf.top o]
+  · cases hs : env.sub o d <;> simp [hd, objectShortcut, hs, genericOriginFailResult, rawSuper_eq]
+
+/-! ### the model of `_is_subtype` is exact -/
+
+theorem isSubtypeClsB_eq {env : Env} (wf : env.WF) (c : ClsId) (t : TA) : isSubtypeClsB env c t = subTy env (.cls c) t := by
+  unfold isSubtypeClsB
+  rw [supHead_eq]
   cases t with
   | cls d =>
     by_cases hd : d = env.object
-    · simp [subTy, isTop, hd]
-    · simp [clsOf, hd] at h
-      simp [subTy, isTop, headCls, fits, h]
-  | any => simp [subTy, isTop]
-  | union p ds =>
-    simp at h
-    have := contains_any wf (List.contains_iff_mem.mpr h)
-    simp [subTy, isTop, headCls, fits] at this ⊢
-    exact this
-  | gen1 g t =>
-    simp [clsOf, wf.origin1NotObject g] at h
-    simp [subTy, isTop, headCls, fits, h]
-  | gen3 g t =>
-    simp [clsOf, wf.origin3NotObject g] at h
-    simp [subTy, isTop, headCls, fits, h]
-theorem isSubtypeAny_sound {env : Env} (wf : env.WF) (t : TA)
-    (h : isSubtypeAny env t = .ok true) : subTy env .any t = true := by
-  unfold isSubtypeAny at h
-  rw [supHead_eq] at h
-  cases t with
-  | cls d =>
-    by_cases hd : d = env.object
-    · simp [subTy, isTop, hd]
-    · simp [clsOf, hd] at h
-      simp [subTy, isTop, headCls, fits, h]
-  | any => simp [subTy, isTop]
-  | union p ds => simp at h
-  | gen1 g t =>
-    simp [clsOf, wf.origin1NotObject g] at h
-    simp [subTy, isTop, headCls, fits, h]
-  | gen3 g t =>
-    simp [clsOf, wf.origin3NotObject g] at h
-    simp [subTy, isTop, headCls, fits, h]
-
-theorem isSubtypeEmpty_sound {env : Env} (wf : env.WF) (t : TA)
-    (h : isSubtypeEmpty env t = .ok true) : isTop env t = true := by
-  unfold isSubtypeEmpty at h
-  rw [supHead_eq] at h
-  cases t with
-  | cls d =>
-    by_cases hd : d = env.object
-    · simp [isTop, hd]
-    · simp [clsOf, hd] at h
-  | any => simp [isTop]
-  | union p ds => simp at h
-  | gen1 g t => simp [clsOf, wf.origin1NotObject g] at h
-  | gen3 g t => simp [clsOf, wf.origin3NotObject g] at h
-
-theorem isSubtypeUnion_sound {env : Env} (wf : env.WF) (p : Bool) (cs : List ClsId) (t : TA)
-    (h : isSubtypeUnion env p cs t = .ok true) : subTy env (.union p cs) t = true := by
-  unfold isSubtypeUnion at h
-  rw [supHead_eq] at h
-  cases t with
-  | cls d =>
-    by_cases hd : d = env.object
-    · simp [subTy, isTop, hd]
-    · cases p <;> simp [clsOf, hd, notAClass, nonGenericCatchesTypeError, nonGenericCatchResult] at h
-  | any => simp [subTy, isTop]
+    · simp [clsOf, hd, objectShortcutResult, subTy, isTop]
+    · simp [clsOf, hd, subTy, isTop, headCls, fits]
+  | any => simp [clsOf, objectShortcutResult, subTy, isTop]
   | union q ds =>
-    simp [unionSubQuantAll] at h
-    simp only [subTy, isTop, Bool.false_or, List.all_eq_true]
-    intro c hc
-    exact contains_any wf (List.contains_iff_mem.mpr (h c hc))
-  | gen1 g t => cases p <;> simp [clsOf, wf.origin1NotObject g, notAClass, nonGenericCatchesTypeError, nonGenericCatchResult] at h
-  | gen3 g t => cases p <;> simp [clsOf, wf.origin3NotObject g, notAClass, nonGenericCatchesTypeError, nonGenericCatchResult] at h
+    have : clsVsCls env c = fun d => env.sub c d := funext (clsVsCls_eq wf c)
+    simp [unionSuperBySubtype, this, subTy, isTop, headCls, fits]
+  | gen1 g t => simp [clsOf, wf.origin1NotObject g, subTy, isTop, headCls, fits]
+  | gen3 g t => simp [clsOf, wf.origin3NotObject g, subTy, isTop, headCls, fits]
 
-theorem isSubtypeT_sound {env : Env} (wf : env.WF) (s t : TA)
-    (h : isSubtypeT env s t = .ok true) : subTy env s t = true := by
+theorem isSubtypeAny_eq {env : Env} (wf : env.WF) (t : TA) : isSubtypeAny env t = .ok (subTy env .any t) := by
+  unfold isSubtypeAny
+  rw [supHead_eq]
+  cases t with
+  | cls d =>
+    by_cases hd : d = env.object
+    · simp [clsOf, hd, objectShortcutResult, subTy, isTop]
+    · simp [clsOf, hd, subTy, isTop, headCls, fits]
+  | any => simp [clsOf, objectShortcutResult, subTy, isTop]
+  | union q ds =>
+    have : anyVsCls env = fun d => env.sub env.object d := funext (anyVsCls_eq wf)
+    simp [unionSuperBySubtype, this, subTy, isTop, headCls, fits]
+  | gen1 g t => simp [clsOf, wf.origin1NotObject g, subTy, isTop, headCls, fits]
+  | gen3 g t => simp [clsOf, wf.origin3NotObject g, subTy, isTop, headCls, fits]
+
+theorem isSubtypeEmpty_eq {env : Env} (wf : env.WF) (t : TA) : isSubtypeEmpty env t = .ok (isTopU env t) := by
+  unfold isSubtypeEmpty
+  rw [supHead_eq]
+  cases t with
+  | cls d =>
+    by_cases hd : d = env.object
+    · simp [clsOf, hd, objectShortcutResult, isTopU, isTop]
+    · simp [clsOf, hd, isTopU, isTop]
+  | any => simp [clsOf, objectShortcutResult, isTopU, isTop]
+  | union q ds =>
+    have : emptyVsCls env = fun d => d == env.object := funext (emptyVsCls_eq env)
+    simp [unionSuperBySubtype, this, isTopU]
+  | gen1 g t => simp [clsOf, wf.origin1NotObject g, isTopU, isTop]
+  | gen3 g t => simp [clsOf, wf.origin3NotObject g, isTopU, isTop]
+
+theorem isSubtypeUnion_eq {env : Env} (wf : env.WF) (p : Bool) (cs : List ClsId) (t : TA) :
+    isSubtypeUnion env p cs t = .ok (subTy env (.union p cs) t) := by
+  have hB : (fun c => isSubtypeClsB env c t) = fun c => subTy env (.cls c) t := funext (fun c => isSubtypeClsB_eq wf c t)
+  unfold isSubtypeUnion
+  rw [supHead_eq, hB]
+  cases t with
+  | cls d =>
+    by_cases hd : d = env.object
+    · simp [clsOf, hd, objectShortcutResult, subTy, isTop]
+    · have hb : (d == env.object) = false := by simp [hd]
+      simp [clsOf, hd, hb, subUnionHoisted, unionSubQuantAll, subTy, isTop, headCls]
+  | any => simp [clsOf, objectShortcutResult, subTy, isTop]
+  | union q ds => simp [subUnionHoisted, unionSubQuantAll, subTy, isTop, headCls]
+  | gen1 g t => simp [clsOf, wf.origin1NotObject g, subUnionHoisted, unionSubQuantAll, subTy, isTop, headCls]
+  | gen3 g t => simp [clsOf, wf.origin3NotObject g, subUnionHoisted, unionSubQuantAll, subTy, isTop, headCls]
+
+/-- **the model of `_is_subtype` never raises and answers exactly the spec relation** (repairs F3, F4, F5) -/
+theorem isSubtypeT_exact {env : Env} (wf : env.WF) (s t : TA) : isSubtypeT env s t = .ok (subTy env s t) := by
   induction s generalizing t with
-  | cls c => exact isSubtypeCls_sound wf c t (by simpa [isSubtypeT] using h)
-  | any => exact isSubtypeAny_sound wf t (by simpa [isSubtypeT] using h)
-  | union p cs => exact isSubtypeUnion_sound wf p cs t (by simpa [isSubtypeT] using h)
-  | gen1 g s ih =>
-    unfold isSubtypeT at h
-    rw [supHead_eq] at h
-    cases t with
-    | cls d =>
-      by_cases hd : d = env.object
-      · simp [subTy, isTop, hd]
-      · simp [clsOf, hd, genericOriginFailResult, argLenMismatch, argLenMismatchResult] at h
-    | any => simp [subTy, isTop]
-    | union q ds => simp at h
-    | gen1 g' t =>
-      simp [clsOf, wf.origin1NotObject g', genericOriginFailResult, argLenMismatch] at h
-      by_cases hs : env.sub (env.origin1 g) (env.origin1 g') = true
-      · simp [hs] at h
-        simp [subTy, hs, ih t h]
-      · simp [hs] at h
-    | gen3 g' t =>
-      simp [clsOf, wf.origin3NotObject g', genericOriginFailResult, argLenMismatch, argLenMismatchResult] at h
-  | gen3 g s ih =>
-    unfold isSubtypeT at h
-    rw [supHead_eq] at h
-    cases t with
-    | cls d =>
-      by_cases hd : d = env.object
-      · simp [subTy, isTop, hd]
-      · simp [clsOf, hd, genericOriginFailResult, argLenMismatch, argLenMismatchResult] at h
-    | any => simp [subTy, isTop]
-    | union q ds => simp at h
-    | gen1 g' t =>
-      simp [clsOf, wf.origin1NotObject g', genericOriginFailResult, argLenMismatch, argLenMismatchResult] at h
-    | gen3 g' t =>
-      simp [clsOf, wf.origin3NotObject g', genericOriginFailResult, argLenMismatch] at h
-      by_cases hs : env.sub (env.origin3 g) (env.origin3 g') = true
-      · simp [hs] at h
-        have haa : isSubtypeAny env .any = .ok true := by
-          simp [isSubtypeAny, supHead_eq, clsOf, objectShortcutResult]
-        simp [haa, Raw.andThen] at h
-        simp [subTy, hs, ih t h]
-      · simp [hs] at h
-/-! ### completeness of the `_is_subtype` model outside the regions -/
-
-theorem not_top_of_supHead {env : Env} (wf : env.WF) {t : TA} (h : isTop env t = false) : supHead env t ≠ .object := by
-  intro h'
-  rw [supHead_top wf] at h'
-  simp [h] at h'
-
-/-- outside the regions the model of `_is_subtype` answers exactly what the spec says -/
-theorem isSubtypeT_complete {env : Env} (wf : env.WF) (s t : TA)
-    (hg : subRegion env s t = none) (h : subTy env s t = true) : isSubtypeT env s t = .ok true := by
-  induction s generalizing t with
-  | cls c =>
-    simp only [isSubtypeT, isSubtypeCls]
-    rw [supHead_eq]
-    cases t with
-    | cls d =>
-      by_cases hd : d = env.object
-      · simp [clsOf, hd, objectShortcutResult]
-      · simpa [clsOf, hd, subTy, isTop, headCls, fits] using h
-    | any => simp [clsOf, objectShortcutResult]
-    | union q ds =>
-      have hm : c ∈ ds := by simpa [subRegion] using hg
-      simp [hm]
-    | gen1 g t => simpa [clsOf, wf.origin1NotObject g, subTy, isTop, headCls, fits] using h
-    | gen3 g t => simpa [clsOf, wf.origin3NotObject g, subTy, isTop, headCls, fits] using h
-  | any =>
-    simp only [isSubtypeT, isSubtypeAny]
-    rw [supHead_eq]
-    cases t with
-    | cls d =>
-      by_cases hd : d = env.object
-      · simp [clsOf, hd, objectShortcutResult]
-      · simpa [clsOf, hd, subTy, isTop, headCls, fits] using h
-    | any => simp [clsOf, objectShortcutResult]
-    | union q ds => simp [subRegion] at hg
-    | gen1 g t => simpa [clsOf, wf.origin1NotObject g, subTy, isTop, headCls, fits] using h
-    | gen3 g t => simpa [clsOf, wf.origin3NotObject g, subTy, isTop, headCls, fits] using h
-  | union p cs =>
-    simp only [isSubtypeT, isSubtypeUnion]
-    rw [supHead_eq]
-    cases t with
-    | cls d =>
-      by_cases hd : d = env.object
-      · simp [clsOf, hd, objectShortcutResult]
-      · simp [subRegion, isTop, hd] at hg
-    | any => simp [clsOf, objectShortcutResult]
-    | union q ds =>
-      have hm : ∀ c ∈ cs, c ∈ ds := by simpa [subRegion] using hg
-      simpa [unionSubQuantAll] using hm
-    | gen1 g t => simp [subRegion, isTop] at hg
-    | gen3 g t => simp [subRegion, isTop] at hg
+  | cls c => simp [isSubtypeT, isSubtypeCls, isSubtypeClsB_eq wf c t]
+  | any => simpa [isSubtypeT] using isSubtypeAny_eq wf t
+  | union p cs => simpa [isSubtypeT] using isSubtypeUnion_eq wf p cs t
   | gen1 g s ih =>
     unfold isSubtypeT
     rw [supHead_eq]
     cases t with
     | cls d =>
       by_cases hd : d = env.object
-      · simp [clsOf, hd, objectShortcutResult]
-      · simp [subRegion, hd] at hg
-    | any => simp [clsOf, objectShortcutResult]
-    | union q ds => simp [subRegion] at hg
+      · simp [clsOf, hd, objectShortcutResult, subTy, isTop]
+      · cases hs : env.sub (env.origin1 g) d <;>
+          simp [clsOf, hd, hs, genericOriginFailResult, rawSuper_eq, subTy, isTop, headCls, fits]
+    | any => simp [clsOf, objectShortcutResult, subTy, isTop]
+    | union q ds =>
+      have : genVsCls env (env.origin1 g) 1 = fun d => env.sub (env.origin1 g) d := funext (genVsCls_eq wf _ 1)
+      simp [unionSuperBySubtype, this, subTy, isTop, headCls, fits]
     | gen1 g' t =>
-      simp only [subTy, Bool.and_eq_true] at h
-      simp only [subRegion] at hg
-      simp [clsOf, wf.origin1NotObject g', h.1, argLenMismatch, ih t hg h.2]
-    | gen3 g' t => simp [subTy] at h
+      cases hs : env.sub (env.origin1 g) (env.origin1 g') <;>
+        simp [clsOf, wf.origin1NotObject g', hs, genericOriginFailResult, argLenMismatch, subTy, ih t]
+    | gen3 g' t =>
+      cases hs : env.sub (env.origin1 g) (env.origin3 g') <;>
+        simp [clsOf, wf.origin3NotObject g', hs, genericOriginFailResult, argLenMismatch, argLenMismatchResult, subTy]
   | gen3 g s ih =>
     unfold isSubtypeT
     rw [supHead_eq]
     cases t with
     | cls d =>
       by_cases hd : d = env.object
-      · simp [clsOf, hd, objectShortcutResult]
-      · simp [subRegion, hd] at hg
-    | any => simp [clsOf, objectShortcutResult]
-    | union q ds => simp [subRegion] at hg
-    | gen1 g' t => simp [subTy] at h
+      · simp [clsOf, hd, objectShortcutResult, subTy, isTop]
+      · cases hs : env.sub (env.origin3 g) d <;>
+          simp [clsOf, hd, hs, genericOriginFailResult, rawSuper_eq, subTy, isTop, headCls, fits]
+    | any => simp [clsOf, objectShortcutResult, subTy, isTop]
+    | union q ds =>
+      have : genVsCls env (env.origin3 g) 3 = fun d => env.sub (env.origin3 g) d := funext (genVsCls_eq wf _ 3)
+      simp [unionSuperBySubtype, this, subTy, isTop, headCls, fits]
+    | gen1 g' t =>
+      cases hs : env.sub (env.origin3 g) (env.origin1 g') <;>
+        simp [clsOf, wf.origin1NotObject g', hs, genericOriginFailResult, argLenMismatch, argLenMismatchResult, subTy]
     | gen3 g' t =>
-      simp only [subTy, Bool.and_eq_true] at h
-      simp only [subRegion] at hg
       have haa : isSubtypeAny env .any = .ok true := by
         simp [isSubtypeAny, supHead_eq, clsOf, objectShortcutResult]
-      simp [clsOf, wf.origin3NotObject g', h.1, argLenMismatch, ih t hg h.2, haa, Raw.andThen]
+      cases hs : env.sub (env.origin3 g) (env.origin3 g') <;>
+        simp [clsOf, wf.origin3NotObject g', hs, genericOriginFailResult, argLenMismatch, subTy, ih t, haa, Raw.andThen]
 
-/-! ### annotations as `inspect` reports them -/
+/-- the two directions under their old names (`isSubtypeT_complete` needs no region hypothesis any more) -/
+theorem isSubtypeT_sound {env : Env} (wf : env.WF) (s t : TA)
+    (h : isSubtypeT env s t = .ok true) : subTy env s t = true := by
+  rw [isSubtypeT_exact wf] at h; simpa using h
 
-theorem isSubtype_sound {env : Env} (wf : env.WF) (a : Ann) (t : TA)
-    (h : isSubtype env a t = .ok true) : declSub env a t = true := by
+theorem isSubtypeT_complete {env : Env} (wf : env.WF) (s t : TA)
+    (h : subTy env s t = true) : isSubtypeT env s t = .ok true := by
+  rw [isSubtypeT_exact wf, h]
+
+/-- annotations as `inspect` reports them -/
+theorem isSubtype_exact {env : Env} (wf : env.WF) (a : Ann) (t : TA) : isSubtype env a t = .ok (declSub env a t) := by
   cases a with
-  | empty => exact isSubtypeEmpty_sound wf t (by simpa [isSubtype] using h)
-  | none => exact isSubtypeCls_sound wf env.noneCls t (by simpa [isSubtype, subNoneNormalised] using h)
-  | ty s => exact isSubtypeT_sound wf s t (by simpa [isSubtype] using h)
-
-theorem isSubtype_complete {env : Env} (wf : env.WF) (a : Ann) (t : TA)
-    (hg : declRegion env a t = none) (h : declSub env a t = true) : isSubtype env a t = .ok true := by
-  cases a with
-  | empty =>
-    simp only [declSub] at h
-    simp [isSubtype, isSubtypeEmpty, (supHead_top wf).mpr h, objectShortcutResult]
-  | none =>
-    have := isSubtypeT_complete wf (.cls env.noneCls) t (by simpa [declRegion] using hg) (by simpa [declSub] using h)
-    simpa [isSubtype, subNoneNormalised, isSubtypeT] using this
-  | ty s => simpa [isSubtype] using isSubtypeT_complete wf s t (by simpa [declRegion] using hg) (by simpa [declSub] using h)
+  | empty => simpa [isSubtype, declSub] using isSubtypeEmpty_eq wf t
+  | none => simp [isSubtype, subNoneNormalised, isSubtypeCls, declSub, isSubtypeClsB_eq wf env.noneCls t]
+  | ty s => simpa [isSubtype, declSub] using isSubtypeT_exact wf s t
 
 /-! ### the parameter loop -/
 
-theorem paramsLoop_never_accepts (env : Env) (ps : List FParam) (ts : List TA) : paramsLoop env ps ts ≠ some (.ok true) := by
+theorem paramsLoop_exact {env : Env} (wf : env.WF) (ps : List FParam) (ts : List TA) :
+    paramsLoop env ps ts = bif (ps.zip ts).all (fun pt => declSub env pt.1.ann pt.2) then none else some (.ok false) := by
   induction ps generalizing ts with
   | nil => simp [paramsLoop]
   | cons p ps ih =>
@@ -266,105 +192,49 @@ theorem paramsLoop_never_accepts (env : Env) (ps : List FParam) (ts : List TA) :
     | nil => simp [paramsLoop]
     | cons t ts =>
       unfold paramsLoop
-      split
-      · exact ih ts
-      · simp [paramFailResult]
-      · simp
+      rw [isSubtype_exact wf p.ann t]
+      simp only [List.zip_cons_cons, List.all_cons]
+      cases hd : declSub env p.ann t <;> simp [ih ts, paramFailResult]
 
-theorem paramsLoop_sound {env : Env} (wf : env.WF) (ps : List FParam) (ts : List TA)
-    (h : paramsLoop env ps ts = none) : (ps.zip ts).all (fun pt => declSub env pt.1.ann pt.2) = true := by
-  induction ps generalizing ts with
-  | nil => simp
-  | cons p ps ih =>
-    cases ts with
-    | nil => simp
-    | cons t ts =>
-      unfold paramsLoop at h
-      split at h
-      · rename_i hp
-        simp [isSubtype_sound wf p.ann t hp, ih ts h]
-      · simp at h
-      · simp at h
-
-theorem paramsLoop_complete {env : Env} (wf : env.WF) (ps : List FParam) (ts : List TA)
-    (hg : paramRegions env ps ts = [])
-    (h : (ps.zip ts).all (fun pt => declSub env pt.1.ann pt.2) = true) : paramsLoop env ps ts = none := by
-  induction ps generalizing ts with
-  | nil => simp [paramsLoop]
-  | cons p ps ih =>
-    cases ts with
-    | nil => simp [paramsLoop]
-    | cons t ts =>
-      simp only [List.zip_cons_cons, List.all_cons, Bool.and_eq_true] at h
-      simp only [paramRegions, List.zip_cons_cons, List.filterMap_cons] at hg
-      cases hr : declRegion env p.ann t with
-      | some r => simp [hr] at hg
-      | none =>
-        simp only [hr] at hg
-        unfold paramsLoop
-        rw [isSubtype_complete wf p.ann t hr h.1]
-        exact ih ts hg h.2
 theorem required_eq (ps : List FParam) : required ps = Spec.required ps := by
   simp [required, Spec.required]
 
 /-! ### the return clause -/
 
-theorem retCheck_sound {env : Env} (wf : env.WF) (coro : Bool) (ret : Ann) (eret : TA)
-    (h : retCheck env coro ret eret = .ok true) : retConforms env coro ret eret = true := by
-  unfold retCheck at h
-  cases coro with
-  | false =>
-    simp [coroTest, syncReturnChecked] at h
-    simpa [retConforms] using isSubtype_sound wf ret eret h
-  | true =>
-    simp only [coroTest, Bool.and_self, Bool.not_true, Bool.false_eq_true, if_false] at h
-    cases eret with
-    | cls d => simp [coroOtherResult] at h
-    | any => simp [coroOtherResult] at h
-    | union q ds => simp [coroOtherResult] at h
-    | gen1 g t =>
-      by_cases hg : g = env.awaitableGen
-      · simp [hg, pickArg, awaitableArgIndex, coroReturnChecked] at h
-        simp [retConforms, isTop, hg, isSubtype_sound wf ret t h]
-      · simp [hg, coroOtherResult] at h
-    | gen3 g t =>
-      by_cases hg : g = env.coroutineGen
-      · simp [hg, pickArg, coroutineArgIndex, coroReturnChecked] at h
-        simp [retConforms, isTop, hg, isSubtype_sound wf ret t h]
-      · simp [hg, coroOtherResult] at h
-
-theorem retCheck_complete {env : Env} (wf : env.WF) (coro : Bool) (ret : Ann) (eret : TA)
-    (hg : retRegions env coro ret eret = []) (h : retConforms env coro ret eret = true) :
-    retCheck env coro ret eret = .ok true := by
+/-- exact unless a coroutine function meets a top type (the open region `asyncVsTop`), where the code answers False -/
+theorem retCheck_exact {env : Env} (wf : env.WF) (coro : Bool) (ret : Ann) (eret : TA) :
+    retCheck env coro ret eret = .ok (if coro && isTop env eret then false else retConforms env coro ret eret) := by
   unfold retCheck
   cases coro with
-  | false =>
-    simp only [retRegions, Bool.false_eq_true, if_false] at hg
-    simp only [retConforms, Bool.false_eq_true, if_false] at h
-    have hr : declRegion env ret eret = none := by
-      cases hd : declRegion env ret eret <;> simp [hd] at hg ⊢
-    simpa [coroTest, syncReturnChecked] using isSubtype_complete wf ret eret hr h
+  | false => simp [coroTest, syncReturnChecked, retConforms, isSubtype_exact wf ret eret]
   | true =>
-    simp only [retRegions, if_true] at hg
-    simp only [retConforms, if_true] at h
-    have htop : isTop env eret = false := by
-      cases ht : isTop env eret <;> simp [ht] at hg ⊢
-    simp only [htop, Bool.false_or, Bool.false_eq_true, if_false] at h hg
-    simp only [coroTest, Bool.and_self, Bool.not_true, Bool.false_eq_true, if_false]
+    simp only [coroTest, Bool.and_self, Bool.not_true, Bool.false_eq_true, if_false, Bool.true_and, retConforms, if_true]
     cases eret with
-    | cls d => simp at h
-    | any => simp at h
-    | union q ds => simp at h
+    | cls d => cases hd : isTop env (.cls d) <;> simp [coroOtherResult, hd]
+    | any => simp [coroOtherResult, isTop]
+    | union q ds => simp [coroOtherResult, isTop]
     | gen1 g t =>
-      simp only [Bool.and_eq_true, beq_iff_eq] at h
-      have hr : declRegion env ret t = none := by
-        cases hd : declRegion env ret t <;> simp [hd] at hg ⊢
-      simp [h.1, pickArg, awaitableArgIndex, coroReturnChecked, isSubtype_complete wf ret t hr h.2]
+      by_cases hg : g = env.awaitableGen
+      · simp [hg, pickArg, awaitableArgIndex, coroReturnChecked, isTop, isSubtype_exact wf ret t]
+      · simp [hg, coroOtherResult, isTop]
     | gen3 g t =>
-      simp only [Bool.and_eq_true, beq_iff_eq] at h
-      have hr : declRegion env ret t = none := by
-        cases hd : declRegion env ret t <;> simp [hd] at hg ⊢
-      simp [h.1, pickArg, coroutineArgIndex, coroReturnChecked, isSubtype_complete wf ret t hr h.2]
+      by_cases hg : g = env.coroutineGen
+      · simp [hg, pickArg, coroutineArgIndex, coroReturnChecked, isTop, isSubtype_exact wf ret t]
+      · simp [hg, coroOtherResult, isTop]
+
+theorem retCheck_sound {env : Env} (wf : env.WF) (coro : Bool) (ret : Ann) (eret : TA)
+    (h : retCheck env coro ret eret = .ok true) : retConforms env coro ret eret = true := by
+  rw [retCheck_exact wf] at h
+  cases hc : (coro && isTop env eret) <;> simp [hc] at h
+  exact h
+
+theorem retCheck_complete {env : Env} (wf : env.WF) (coro : Bool) (ret : Ann) (eret : TA)
+    (hg : retRegions env coro eret = []) (h : retConforms env coro ret eret = true) :
+    retCheck env coro ret eret = .ok true := by
+  rw [retCheck_exact wf]
+  cases hc : (coro && isTop env eret)
+  · simp [h]
+  · simp [retRegions, hc] at hg
 
 /-! ### `_instancecheck_callable` -/
 
@@ -383,31 +253,25 @@ theorem checkSig_sound {env : Env} (wf : env.WF) (sig : SigR) (coro : Bool) (e :
       simp only [hps] at h
       exact ⟨by simp [paramsConform], retCheck_sound wf coro ret e.ret h⟩
     | some ts =>
-      simp only [hps, arityMismatch, zipAllParams, if_true, arityMismatchResult] at h
+      simp only [hps, arityMismatch, zipAllParams, if_true, arityMismatchResult, paramsLoop_exact wf] at h
       by_cases hl : ts.length = (required ps).length
       · simp only [hl, ne_eq, not_true_eq_false, decide_false, Bool.false_eq_true, if_false] at h
-        cases hloop : paramsLoop env ps ts with
-        | some r =>
-          simp only [hloop] at h
-          exact absurd (h ▸ hloop) (paramsLoop_never_accepts env ps ts)
-        | none =>
-          simp only [hloop] at h
-          have := paramsLoop_sound wf ps ts hloop
-          exact ⟨by simp [paramsConform, ← required_eq, hl, this], retCheck_sound wf coro ret e.ret h⟩
+        cases hz : (ps.zip ts).all (fun pt => declSub env pt.1.ann pt.2)
+        · simp [hz] at h
+        · simp only [hz, cond_true] at h
+          exact ⟨by simp [paramsConform, ← required_eq, hl, hz], retCheck_sound wf coro ret e.ret h⟩
       · simp [hl] at h
 
 theorem checkSig_complete {env : Env} (wf : env.WF) (ps : List FParam) (ret : Ann) (coro : Bool) (e : Exp)
-    (hg1 : (match e.ps with | some ts => paramRegions env ps ts | none => []) = [])
-    (hg2 : retRegions env coro ret e.ret = [])
+    (hg : retRegions env coro e.ret = [])
     (h1 : paramsConform env ps e.ps = true) (h2 : retConforms env coro ret e.ret = true) :
     checkSig env (.ok ps ret) coro e = .ok true := by
   unfold checkSig
   cases hps : e.ps with
-  | none => simp [retCheck_complete wf coro ret e.ret hg2 h2]
+  | none => simp [retCheck_complete wf coro ret e.ret hg h2]
   | some ts =>
-    simp only [hps] at hg1
     simp only [hps, paramsConform, Bool.and_eq_true, beq_iff_eq, ← required_eq] at h1
-    simp [arityMismatch, h1.1, zipAllParams, paramsLoop_complete wf ps ts hg1 h1.2, retCheck_complete wf coro ret e.ret hg2 h2]
+    simp [arityMismatch, h1.1, zipAllParams, paramsLoop_exact wf, h1.2, retCheck_complete wf coro ret e.ret hg h2]
 
 theorem conformsLeaf_of_sig {env : Env} {name : NameR} {sig : SigR} {coro : Bool} {e : Exp}
     (h : ∃ ps ret, sig = .ok ps ret ∧ paramsConform env ps e.ps = true ∧ retConforms env coro ret e.ret = true) :
@@ -421,6 +285,15 @@ theorem checkObj_nonCallable (env : Env) (name : NameR) (coro : Bool) (e : Exp) 
   cases hl : lambdaShortcut <;>
     simp [isLambda, checkSig, sigFails, catches, sigCaught, sigHandlerResult]
 
+/-- repair F1: a callable without `__name__` is no lambda and is checked by its signature like every other callable -/
+theorem checkCallable_missing_name (env : Env) (sig : SigR) (coro : Bool) (e : Exp) :
+    checkCallable env (.callable .missing sig coro) e = checkCallable env (.callable .other sig coro) e := by
+  simp [checkCallable, checkObj, isLambda, lambdaNameGuarded]
+
+theorem checkCallable_named (env : Env) (sig : SigR) (coro : Bool) (e : Exp) :
+    checkCallable env (.callable .other sig coro) e = checkSig env sig coro e := by
+  simp [checkCallable, checkObj, isLambda, lambdaShortcut]
+
 theorem checkCallable_sound {env : Env} (wf : env.WF) (v : CVal) (e : Exp)
     (h : checkCallable env v e = .ok true) : conformsLeaf env v e = true := by
   cases v with
@@ -432,14 +305,14 @@ theorem checkCallable_sound {env : Env} (wf : env.WF) (v : CVal) (e : Exp)
     · simp [hn, noneResult] at h
   | nonCallable => exact absurd h (checkObj_nonCallable env .missing false e)
   | callable name sig coro =>
-    simp only [checkCallable, checkObj, lambdaShortcut, if_true, isLambda, Bool.not_true, Bool.false_eq_true, if_false] at h
     cases name with
     | lambda => simp [conformsLeaf]
     | missing =>
-      first
-        | (simp [lambdaNameGuarded] at h; done)
-        | (simp only [lambdaNameGuarded, if_true] at h; exact conformsLeaf_of_sig (checkSig_sound wf sig coro e h))
-    | other => exact conformsLeaf_of_sig (checkSig_sound wf sig coro e h)
+      rw [checkCallable_missing_name, checkCallable_named] at h
+      exact conformsLeaf_of_sig (checkSig_sound wf sig coro e h)
+    | other =>
+      rw [checkCallable_named] at h
+      exact conformsLeaf_of_sig (checkSig_sound wf sig coro e h)
 
 theorem checkCallable_complete {env : Env} (wf : env.WF) (v : CVal) (e : Exp)
     (hg : leafRegions env v e = []) (h : conformsLeaf env v e = true) : checkCallable env v e = .ok true := by
@@ -447,46 +320,39 @@ theorem checkCallable_complete {env : Env} (wf : env.WF) (v : CVal) (e : Exp)
   | none => simp [conformsLeaf] at h
   | nonCallable => simp [conformsLeaf] at h
   | callable name sig coro =>
-    simp only [checkCallable, checkObj, lambdaShortcut, if_true, isLambda, Bool.not_true, Bool.false_eq_true, if_false]
-    cases name with
-    | missing => simp [leafRegions] at hg
-    | lambda => simp [lambdaResult]
-    | other =>
+    have core : name ≠ .lambda → checkSig env sig coro e = .ok true := by
+      intro hn
       simp only [conformsLeaf] at h
       cases sig with
-      | typeError => simp at h
-      | valueError => simp at h
+      | typeError => cases name <;> simp at h hn
+      | valueError => cases name <;> simp at h hn
       | ok ps ret =>
         simp only [leafRegions] at hg
-        simp at h
-        simp only [List.append_eq_nil_iff] at hg
-        exact checkSig_complete wf ps ret coro e hg.2.1 hg.2.2 h.1 h.2
+        have h' : paramsConform env ps e.ps = true ∧ retConforms env coro ret e.ret = true := by
+          cases name <;> simp at h hn <;> exact h
+        exact checkSig_complete wf ps ret coro e hg h'.1 h'.2
+    cases name with
+    | lambda => simp [checkCallable, checkObj, isLambda, lambdaShortcut, lambdaResult]
+    | missing => rw [checkCallable_missing_name, checkCallable_named]; exact core (by simp)
+    | other => rw [checkCallable_named]; exact core (by simp)
 
 /-! ### the route and the one-level wrappers -/
 
-theorem leafCheck_sound {env : Env} (wf : env.WF) (sp : Spelling) (e : Exp) (v : CVal)
-    (h : leafCheck env sp e v = .ok true) : conformsLeaf env v e = true := by
-  cases sp with
-  | typing => exact checkCallable_sound wf v e (by simpa [leafCheck] using h)
-  | abc =>
-    unfold leafCheck at h
-    cases hr : abcRoute env e with
-    | none => exact checkCallable_sound wf v e (by simpa [hr] using h)
-    | some x => simp [hr] at h
+/-- repair F2: `convert_to_typing_types` turns every `collections.abc.Callable[...]` into the same annotation in the typing spelling -/
+theorem abcRoute_none (env : Env) (e : Exp) : abcRoute env e = none := by
+  simp [abcRoute, convertAbcCallable, convertAbcBareTolerated]
 
-/-- the Callable annotation itself is in no region: typing spelling, or a `collections.abc` spelling that converts -/
-def spellingOk (env : Env) (sp : Spelling) (e : Exp) : Bool := !(sp == .abc && (abcRoute env e).isSome)
+theorem leafCheck_eq (env : Env) (sp : Spelling) (e : Exp) (v : CVal) : leafCheck env sp e v = checkCallable env v e := by
+  cases sp <;> simp [leafCheck, abcRoute_none]
+
+theorem leafCheck_sound {env : Env} (wf : env.WF) (sp : Spelling) (e : Exp) (v : CVal)
+    (h : leafCheck env sp e v = .ok true) : conformsLeaf env v e = true :=
+  checkCallable_sound wf v e (by rwa [leafCheck_eq] at h)
 
 theorem leafCheck_complete {env : Env} (wf : env.WF) (sp : Spelling) (e : Exp) (v : CVal)
-    (hs : spellingOk env sp e = true) (hg : leafRegions env v e = []) (h : conformsLeaf env v e = true) :
+    (hg : leafRegions env v e = []) (h : conformsLeaf env v e = true) :
     leafCheck env sp e v = .ok true := by
-  cases sp with
-  | typing => simpa [leafCheck] using checkCallable_complete wf v e hg h
-  | abc =>
-    unfold leafCheck
-    cases hr : abcRoute env e with
-    | none => simpa using checkCallable_complete wf v e hg h
-    | some x => simp [spellingOk, hr] at hs
+  rw [leafCheck_eq]; exact checkCallable_complete wf v e hg h
 
 theorem checkList_sound {env : Env} (wf : env.WF) (sp : Spelling) (e : Exp) (xs : List CVal)
     (h : checkList env sp e xs = .ok true) : xs.all (fun l => conformsLeaf env l e) = true := by
@@ -501,7 +367,7 @@ theorem checkList_sound {env : Env} (wf : env.WF) (sp : Spelling) (e : Exp) (xs 
       exact absurd h hne
 
 theorem checkList_complete {env : Env} (wf : env.WF) (sp : Spelling) (e : Exp) (xs : List CVal)
-    (hs : spellingOk env sp e = true) (hg : xs.flatMap (fun l => leafRegions env l e) = [])
+    (hg : xs.flatMap (fun l => leafRegions env l e) = [])
     (h : xs.all (fun l => conformsLeaf env l e) = true) : checkList env sp e xs = .ok true := by
   induction xs with
   | nil => simp [checkList]
@@ -509,7 +375,7 @@ theorem checkList_complete {env : Env} (wf : env.WF) (sp : Spelling) (e : Exp) (
     simp only [List.flatMap_cons, List.append_eq_nil_iff] at hg
     simp only [List.all_cons, Bool.and_eq_true] at h
     unfold checkList
-    rw [leafCheck_complete wf sp e v hs hg.1 h.1]
+    rw [leafCheck_complete wf sp e v hg.1 h.1]
     exact ih hg.2 h.2
 
 theorem checkDict_sound {env : Env} (wf : env.WF) (sp : Spelling) (e : Exp) (kvs : List (Bool × CVal))
@@ -530,7 +396,7 @@ theorem checkDict_sound {env : Env} (wf : env.WF) (sp : Spelling) (e : Exp) (kvs
         exact absurd h hne
 
 theorem checkDict_complete {env : Env} (wf : env.WF) (sp : Spelling) (e : Exp) (kvs : List (Bool × CVal))
-    (hs : spellingOk env sp e = true) (hg : kvs.flatMap (fun kv => leafRegions env kv.2 e) = [])
+    (hg : kvs.flatMap (fun kv => leafRegions env kv.2 e) = [])
     (h : kvs.all (fun kv => kv.1 && conformsLeaf env kv.2 e) = true) : checkDict env sp e kvs = .ok true := by
   induction kvs with
   | nil => simp [checkDict]
@@ -540,16 +406,11 @@ theorem checkDict_complete {env : Env} (wf : env.WF) (sp : Spelling) (e : Exp) (
     simp only [List.all_cons, Bool.and_eq_true] at h
     unfold checkDict
     simp only [h.1.1, Bool.not_true, Bool.false_eq_true, if_false]
-    rw [leafCheck_complete wf sp e v hs hg.1 h.1.2]
+    rw [leafCheck_complete wf sp e v hg.1 h.1.2]
     exact ih hg.2 h.2
 
 theorem leafCheck_nonCallable_ne (env : Env) (sp : Spelling) (e : Exp) : leafCheck env sp e .nonCallable ≠ .ok true := by
-  have h0 : checkCallable env .nonCallable e ≠ .ok true := checkObj_nonCallable env .missing false e
-  cases sp with
-  | typing => simpa [leafCheck] using h0
-  | abc =>
-    unfold leafCheck
-    cases abcRoute env e <;> simp [h0]
+  rw [leafCheck_eq]; exact checkObj_nonCallable env .missing false e
 
 /-! ### re-spelling of the expected types -/
 
@@ -581,33 +442,47 @@ theorem supHead_respell (env : Env) {t t' : TA} (h : Respell t t') :
     refine Or.inr ⟨rfl, fun cs => ?_⟩
     by_cases hc : env.origin3 g = env.object <;> simp [supHead_eq, clsOf, hc]
 
+theorem any_congr {cs ds : List ClsId} (h : ∀ c, c ∈ cs ↔ c ∈ ds) (f : ClsId → Bool) : cs.any f = ds.any f := by
+  rw [Bool.eq_iff_iff]
+  simp only [List.any_eq_true]
+  constructor
+  · rintro ⟨c, hc, hf⟩; exact ⟨c, (h c).mp hc, hf⟩
+  · rintro ⟨c, hc, hf⟩; exact ⟨c, (h c).mpr hc, hf⟩
+
+theorem isSubtypeClsB_respell (env : Env) (c : ClsId) {t t' : TA} (h : Respell t t') :
+    isSubtypeClsB env c t = isSubtypeClsB env c t' := by
+  unfold isSubtypeClsB
+  rcases supHead_respell env h with ⟨cs, ds, h1, h2, hm⟩ | ⟨h1, _⟩
+  · simp only [h1, h2, any_congr hm, contains_congr hm]
+  · rw [h1]
+
 theorem isSubtypeCls_respell (env : Env) (c : ClsId) {t t' : TA} (h : Respell t t') :
     isSubtypeCls env c t = isSubtypeCls env c t' := by
-  unfold isSubtypeCls
-  rcases supHead_respell env h with ⟨cs, ds, h1, h2, hm⟩ | ⟨h1, _⟩
-  · simp [h1, h2, hm c]
-  · rw [h1]
+  simp only [isSubtypeCls, isSubtypeClsB_respell env c h]
 
 theorem isSubtypeAny_respell (env : Env) {t t' : TA} (h : Respell t t') :
     isSubtypeAny env t = isSubtypeAny env t' := by
   unfold isSubtypeAny
   rcases supHead_respell env h with ⟨cs, ds, h1, h2, hm⟩ | ⟨h1, _⟩
-  · simp [h1, h2]
+  · simp only [h1, h2, any_congr hm]
   · rw [h1]
 
 theorem isSubtypeEmpty_respell (env : Env) {t t' : TA} (h : Respell t t') :
     isSubtypeEmpty env t = isSubtypeEmpty env t' := by
   unfold isSubtypeEmpty
   rcases supHead_respell env h with ⟨cs, ds, h1, h2, hm⟩ | ⟨h1, _⟩
-  · simp [h1, h2]
+  · simp only [h1, h2, any_congr hm]
   · rw [h1]
 
 theorem isSubtypeUnion_respell (env : Env) (p : Bool) (xs : List ClsId) {t t' : TA} (h : Respell t t') :
     isSubtypeUnion env p xs t = isSubtypeUnion env p xs t' := by
+  have hB : (fun c => isSubtypeClsB env c t) = fun c => isSubtypeClsB env c t' :=
+    funext fun c => isSubtypeClsB_respell env c h
   unfold isSubtypeUnion
+  rw [hB]
   rcases supHead_respell env h with ⟨cs, ds, h1, h2, hm⟩ | ⟨h1, _⟩
   · have : cs.contains = ds.contains := funext (contains_congr hm)
-    simp [h1, h2, this]
+    simp only [h1, h2, this]
   · rw [h1]
 
 /-- position-wise re-spelling of a list of types -/
@@ -625,7 +500,7 @@ theorem isSubtypeT_respell (env : Env) (s : TA) {t t' : TA} (h : Respell t t') :
   | gen1 g s ih =>
     unfold isSubtypeT
     rcases supHead_respell env h with ⟨cs, ds, h1, h2, hm⟩ | ⟨h1, _⟩
-    · simp [h1, h2]
+    · simp only [h1, h2, any_congr hm]
     · rw [← h1]
       cases h with
       | cls c => rfl
@@ -636,7 +511,7 @@ theorem isSubtypeT_respell (env : Env) (s : TA) {t t' : TA} (h : Respell t t') :
   | gen3 g s ih =>
     unfold isSubtypeT
     rcases supHead_respell env h with ⟨cs, ds, h1, h2, hm⟩ | ⟨h1, _⟩
-    · simp [h1, h2]
+    · simp only [h1, h2, any_congr hm]
     · rw [← h1]
       cases h with
       | cls c => rfl
@@ -779,15 +654,16 @@ theorem respell_invariant (env : Env) (w : Wrap) (sp : Spelling) {e e' : Exp} (h
 
 /-! the spec does not look at the spelling either -/
 
-theorem any_congr {cs ds : List ClsId} (h : ∀ c, c ∈ cs ↔ c ∈ ds) (f : ClsId → Bool) : cs.any f = ds.any f := by
-  rw [Bool.eq_iff_iff]
-  simp only [List.any_eq_true]
-  constructor
-  · rintro ⟨c, hc, hf⟩; exact ⟨c, (h c).mp hc, hf⟩
-  · rintro ⟨c, hc, hf⟩; exact ⟨c, (h c).mpr hc, hf⟩
-
 theorem isTop_respell (env : Env) {t t' : TA} (h : Respell t t') : isTop env t = isTop env t' := by
   cases h <;> rfl
+
+theorem isTopU_respell (env : Env) {t t' : TA} (h : Respell t t') : isTopU env t = isTopU env t' := by
+  cases h with
+  | union p q cs ds h => simpa [isTopU] using any_congr h _
+  | cls c => rfl
+  | any => rfl
+  | gen1 g h => rfl
+  | gen3 g h => rfl
 
 theorem fits_respell (env : Env) (c : ClsId) {t t' : TA} (h : Respell t t') : fits env c t = fits env c t' := by
   cases h with
@@ -819,7 +695,7 @@ theorem subTy_respell (env : Env) (s : TA) {t t' : TA} (h : Respell t t') : subT
 
 theorem declSub_respell (env : Env) (a : Ann) {t t' : TA} (h : Respell t t') : declSub env a t = declSub env a t' := by
   cases a with
-  | empty => simpa [declSub] using isTop_respell env h
+  | empty => simpa [declSub] using isTopU_respell env h
   | none => simpa [declSub] using subTy_respell env _ h
   | ty s => simpa [declSub] using subTy_respell env s h
 
